@@ -7,11 +7,13 @@ random.seed(7)
 
 # ---------- tiny field arithmetic (Fp and Fp2 = Fp[u]/(u^2 - beta)) as tuples
 class F:
-    def __init__(s, p, beta=None):
-        s.p, s.beta, s.deg = p, beta, (1 if beta is None else 2)
+    def __init__(s, p, beta=None, deg=None):
+        s.p, s.beta = p, beta
+        s.deg = deg if deg is not None else (1 if beta is None else 2)
     def elems(s):
         if s.deg == 1: return [(x,) for x in range(s.p)]
-        return [(x, y) for y in range(s.p) for x in range(s.p)]
+        if s.deg == 2: return [(x, y) for y in range(s.p) for x in range(s.p)]
+        return [(x, y, z) for z in range(s.p) for y in range(s.p) for x in range(s.p)]
     def zero(s): return (0,) * s.deg
     def one(s): return (1,) + (0,) * (s.deg - 1)
     def add(s, a, b): return tuple((x + y) % s.p for x, y in zip(a, b))
@@ -19,9 +21,22 @@ class F:
     def neg(s, a): return tuple((-x) % s.p for x in a)
     def mul(s, a, b):
         if s.deg == 1: return ((a[0] * b[0]) % s.p,)
+        if s.deg == 3:
+            # F_p[v]/(v^3 - beta)
+            c = [0] * 5
+            for i in range(3):
+                for j in range(3):
+                    c[i + j] += a[i] * b[j]
+            return ((c[0] + s.beta * c[3]) % s.p, (c[1] + s.beta * c[4]) % s.p, c[2] % s.p)
         return ((a[0] * b[0] + s.beta * a[1] * b[1]) % s.p, (a[0] * b[1] + a[1] * b[0]) % s.p)
     def inv(s, a):
         if s.deg == 1: return (pow(a[0], -1, s.p),)
+        if s.deg == 3:
+            r = s.one(); e = s.p ** 3 - 2; b = a
+            while e:
+                if e & 1: r = s.mul(r, b)
+                b = s.mul(b, b); e >>= 1
+            return r
         n = (a[0] * a[0] - s.beta * a[1] * a[1]) % s.p
         ni = pow(n, -1, s.p)
         return ((a[0] * ni) % s.p, (-a[1] * ni) % s.p)
@@ -191,18 +206,23 @@ addc("sw_fp2_a0", "sw", (F17_2, find_sw(F17_2, True, None, None)), "over F_{17^2
 addc("te_c_h4", "te", over_primes(find_te, True, 4, tries=3000), "complete (a square, d non-square), cofactor 4")
 addc("te_c_h8", "te", over_primes(find_te, True, 8, tries=3000), "complete, cofactor 8")
 addc("te_inc", "te", over_primes(find_te, False, None, tries=400, primes=SMALL_PRIMES), "incomplete addition law on the curve, exception-free on the prime-order subgroup")
+F7_3 = F(7, 3, 3)
+addc("sw_fp3_a0", "sw", (F7_3, find_sw(F7_3, True, None, None, tries=300)), "over F_{7^3} (cubic extension), a = 0: the doubling branch for extension degree > 2")
+addc("sw_fp3_a", "sw", (F7_3, find_sw(F7_3, False, None, None, tries=300)), "over F_{7^3} (cubic extension), a != 0")
 
 def fe(f, v):
     if f.deg == 1: return f'MontFp!("{v[0]}")'
+    if f.deg == 3: return f'Fp3::new(MontFp!("{v[0]}"), MontFp!("{v[1]}"), MontFp!("{v[2]}"))'
     return f'Fp2::new(MontFp!("{v[0]}"), MontFp!("{v[1]}"))'
 def base_ty(f):
+    if f.deg == 3: return "crate::toy_towers::F7_3"
     return f"F{f.p}" if f.deg == 1 else "crate::toy_towers::F17_2"
 
 out = ["// @generated by gen/gen_curves.py — do not edit by hand\n",
        "//! Toy curves small enough to enumerate completely (group orders by brute-force point counting).\n",
        "#![allow(non_camel_case_types, clippy::all)]\n",
        "use ark_ec::{models::CurveConfig, short_weierstrass::{self as sw, SWCurveConfig}, twisted_edwards::{self as te, MontCurveConfig, TECurveConfig}};\n",
-       "use ark_ff::{fields::{Fp2, Fp64, MontBackend, MontConfig}, MontFp};\n\n"]
+       "use ark_ff::{fields::{Fp2, Fp3, Fp64, MontBackend, MontConfig}, MontFp};\n\n"]
 primes = sorted({f.p for _, _, f, _, _ in curves if f.deg == 1} | {c["r"] for _, _, _, c, _ in curves})
 for p in primes:
     g = primitive_root(p)
@@ -227,6 +247,14 @@ for name, model, f, c, note in curves:
         metas.append((name, "te", f, a, d, c, note))
 out.append("/// Oracle-side description of a toy curve (plain integers; base field F_p or F_p[u]/(u^2 - beta)).\n#[derive(Clone, Debug)]\npub struct ToyMeta {\n    pub name: &'static str,\n    pub model: &'static str,\n    pub p: u64,\n    pub ext_degree: usize,\n    pub beta: u64,\n    /// SW: a, b; TE: a, d (c0, c1)\n    pub coeff1: [u64; 2],\n    pub coeff2: [u64; 2],\n    pub r: u64,\n    pub h: u64,\n    pub order: u64,\n    pub gen_x: [u64; 2],\n    pub gen_y: [u64; 2],\n    pub note: &'static str,\n}\n")
 def arr(v): return f"[{v[0]}, {v[1] if len(v) > 1 else 0}]"
+def arr3(v): return f"[{v[0]}, {v[1]}, {v[2]}]"
+metas3 = [m for m in metas if m[2].deg == 3]
+metas = [m for m in metas if m[2].deg != 3]
+out.append("/// Same as `ToyMeta` for curves over the cubic extension F_p[v]/(v^3 - beta) (coordinates c0, c1, c2).\n#[derive(Clone, Debug)]\npub struct ToyMeta3 {\n    pub name: &'static str,\n    pub model: &'static str,\n    pub p: u64,\n    pub beta: u64,\n    pub coeff1: [u64; 3],\n    pub coeff2: [u64; 3],\n    pub r: u64,\n    pub h: u64,\n    pub order: u64,\n    pub gen_x: [u64; 3],\n    pub gen_y: [u64; 3],\n    pub note: &'static str,\n}\n")
+out.append("pub const TOY_CURVES3: &[ToyMeta3] = &[\n")
+for name, model, f, c1, c2, c, note in metas3:
+    out.append(f'    ToyMeta3 {{ name: "{name}", model: "{model}", p: {f.p}, beta: {f.beta}, coeff1: {arr3(c1)}, coeff2: {arr3(c2)}, r: {c["r"]}, h: {c["h"]}, order: {c["n"]}, gen_x: {arr3(c["G"][0])}, gen_y: {arr3(c["G"][1])}, note: "{note}" }},\n')
+out.append("];\n\n")
 out.append("pub const TOY_CURVES: &[ToyMeta] = &[\n")
 for name, model, f, c1, c2, c, note in metas:
     out.append(f'    ToyMeta {{ name: "{name}", model: "{model}", p: {f.p}, ext_degree: {f.deg}, beta: {f.beta or 0}, coeff1: {arr(c1)}, coeff2: {arr(c2)}, r: {c["r"]}, h: {c["h"]}, order: {c["n"]}, gen_x: {arr(c["G"][0])}, gen_y: {arr(c["G"][1])}, note: "{note}" }},\n')
@@ -234,10 +262,13 @@ out.append("];\n\n")
 out.append("/// `$m!(\"name\", ConfigType);` for every toy short-Weierstrass curve.\n#[macro_export]\nmacro_rules! for_each_toy_sw {\n    ($m:ident) => {\n")
 for name, model, *_ in metas:
     if model == "sw": out.append(f'        $m!("{name}", $crate::toy_curves::{name});\n')
+out.append("    };\n}\n/// `$m!(\"name\", ConfigType);` for every toy short-Weierstrass curve over a cubic extension field (metadata in TOY_CURVES3).\n#[macro_export]\nmacro_rules! for_each_toy_sw3 {\n    ($m:ident) => {\n")
+for name, model, *_ in metas3:
+    out.append(f'        $m!("{name}", $crate::toy_curves::{name});\n')
 out.append("    };\n}\n/// `$m!(\"name\", ConfigType);` for every toy twisted-Edwards curve.\n#[macro_export]\nmacro_rules! for_each_toy_te {\n    ($m:ident) => {\n")
 for name, model, *_ in metas:
     if model == "te": out.append(f'        $m!("{name}", $crate::toy_curves::{name});\n')
 out.append("    };\n}\n")
 open("/verif/harness/cfgs/src/toy_curves.rs", "w").write("".join(out))
-for name, model, f, c1, c2, c, note in metas:
+for name, model, f, c1, c2, c, note in metas + metas3:
     print(name, model, "p", f.p, "deg", f.deg, "order", c["n"], "=", c["h"], "*", c["r"])
